@@ -174,7 +174,7 @@ CHECKS["C02"] = {
     "level_note": "Trusted: mocktikv (checked by C12) and unistore as stores, lock expiry simulated by advancing the virtual TSO clock (mocktikv) or skewing the clients' clock (unistore).",
     "tests": [
         {"name": "TestCrashPoints", "quick": 120, "thorough": 500, "shards": 16, "timeout_q": 400, "timeout_t": 3000},
-        {"name": "TestCrashPointsUni", "quick": 60, "thorough": 300, "shards": 16, "timeout_q": 400, "timeout_t": 3000},
+        {"name": "TestCrashPointsUni", "quick": 150, "thorough": 300, "shards": 16, "timeout_q": 400, "timeout_t": 3000},
     ],
 }
 
@@ -227,7 +227,7 @@ CHECKS["C06"] = {
     "level_note": "Trusted: mocktikv / unistore; drain detection by RPC silence plus polling.",
     "tests": [
         {"name": "TestNoLeftoverLocks", "quick": 500, "thorough": 6000, "shards": 16, "timeout_q": 400},
-        {"name": "TestNoLeftoverLocksUni", "quick": 300, "thorough": 3000, "shards": 16, "timeout_q": 400},
+        {"name": "TestNoLeftoverLocksUni", "quick": 1000, "thorough": 3000, "shards": 16, "timeout_q": 400},
     ],
 }
 
